@@ -188,13 +188,38 @@ pub fn scenarios(tier: Tier) -> Vec<C01Scn> {
 				}
 			}
 		}
+		// (vi) a feerate change (both nodes' estimators move, the funder's timer fires) in flight or queued behind
+		// the funder's own uncommitted update, then a payment of exactly the reported limit by either node
+		if ct != Ct::ZeroFee {
+			for tight in [false, true] {
+				for node in [0usize, 1] {
+					for rate in if tier.is_thorough() { vec![380u32, 760, 2024, 5000] } else { vec![760u32, 2024] } {
+						v.push(C01Scn {
+							name: format!("{}-feebump{}-then-limit-{}-n{}", n, rate, if tight { "tight" } else { "wide" }, node),
+							ct,
+							ops: vec![
+								send(0, 1, if tight { 20_000_000 } else { large }, ClaimPolicy::Claim),
+								Op::SetFeeAll { rate },
+								Op::SetFee { node: 0, rate },
+								Op::Probe { node, chan: 0, kind: ProbeKind::AtLimit },
+							],
+							ops_first: false,
+							dev: reorder.clone(),
+							k: if tier.is_thorough() { 3 } else { 2 },
+							max_disconnects: 0,
+							tight,
+						});
+					}
+				}
+			}
+		}
 	}
 	v
 }
 
 pub fn to_runner(s: C01Scn, wall: Option<Duration>) -> Scenario {
 	let mut cfg = Config { max_deviations: s.k, horizon: 600, wall_cap: wall, ..Config::default() };
-	if s.name.contains("shutdown-disconnect") {
+	if s.name.contains("shutdown-disconnect") || s.name.contains("feebump") {
 		// a recorded finding lives here: keep exploring past it so that other violations are still seen
 		cfg.branch_below_violations = true;
 		cfg.max_violations = 5000;
